@@ -9,11 +9,12 @@ from harness.common import struct_hash
 
 ID = "C04"
 LEVEL_TEXT = ('Lean 4 theorems about the executable model of the code (all inputs, by induction), tied to /repo by tables regenerated on every run (decide) and by differential execution of model and implementation; the property oracle is also run on the implementation for every case. PARTIAL: what is proved is the layout (clause order, items once and in order, nesting, qualification rule) of the rendered statement; that SQLite accepts the text and evaluates it to the rows of the explicit reference statement is EXECUTED on generated databases, not proved (no formal semantics of SQLite exists in this sandbox).')
-LEAN_MODULES = ["Pypika.Props.C04"]
+LEAN_MODULES = ["Pypika.Props.C04", "Pypika.Props.Builder"]
 TRACE_BUILDER = True   # builder calls made by this check are also run through Pypika.B.step (harness/trace.py)
 THEOREMS = ["Pypika.C04.select_layout", "Pypika.C04.joins_in_order", "Pypika.C04.join_on_layout", "Pypika.C04.join_plain_layout",
             "Pypika.C04.from_items_in_order", "Pypika.C04.select_items_in_order", "Pypika.C04.namespace_rule",
-            "Pypika.C04.nested_is_parenthesised", "Pypika.C04.exists_operand"]
+            "Pypika.C04.nested_is_parenthesised", "Pypika.C04.exists_operand",
+            "Pypika.B.select_terms_append", "Pypika.B.select_select"]
 AGREE = []
 TRUSTED = [
     "sqlite3 %s (the engine deciding acceptance and row sets)" % sqlite3.sqlite_version,
